@@ -8,6 +8,7 @@ import (
 	"golang.org/x/tools/go/ssa"
 
 	"verif/internal/engine/locks"
+	"verif/internal/engine/paths"
 	"verif/internal/ir"
 )
 
@@ -194,4 +195,59 @@ func (c *Ctx) staleAcrossSections(pkgs ...string) {
 	}
 	c.R.Count("functions with an explicit unlock that read guarded positions", nSections)
 	c.R.Count("uses of guarded positions as an index or key", nUses)
+}
+
+// waitAcceptsRequests: T2, registration side. A request that needs an acknowledgement (PUBLISH at QoS 1/2, SUBSCRIBE,
+// UNSUBSCRIBE, PINGREQ) is always registered: Ackqueue.Wait returns an error only for a message that needs none (a
+// QoS 0 PUBLISH, another type) or when re-encoding fails. The handlers rely on that in both directions - they answer
+// a QoS 2 PUBLISH with PUBREC whatever Wait said (a refused registration would lose the message after the sender was
+// told it arrived), and a retransmission (DUP, identifier already queued) must still be answered (an error passed up
+// from the duplicate test would, in a handler that honours it, leave the retransmission without PUBREC for ever).
+func (c *Ctx) waitAcceptsRequests() {
+	fn := c.P.Func("sessions", "Ackqueue", "Wait")
+	if fn == nil {
+		c.R.Unresolved("sessions.Ackqueue.Wait")
+		return
+	}
+	if c.R.Rules[ruleT2] == "" {
+		c.R.Rule(ruleT2, "registration side of the acknowledgement tables: Ackqueue.Wait registers every request that needs an acknowledgement (PUBLISH at QoS 1/2, SUBSCRIBE, UNSUBSCRIBE, PINGREQ) - it returns an error only for a message that needs none or for a failing re-encode.")
+	}
+	g := paths.New(c.P, fn, 1)
+	g.Expand = func(callee *ssa.Function, site ssa.CallInstruction) bool {
+		return callee != nil && callee != fn && callee.Blocks != nil && recvNamed(callee) == "Ackqueue" && c.P.InLib(callee)
+	}
+	entry := []paths.Node{g.Entry()}
+	types := []string{"PublishMessage", "SubscribeMessage", "UnsubscribeMessage", "PingreqMessage"}
+	n := 0
+	for _, t := range types {
+		if !hasAtom(g, "type:"+t) {
+			c.R.Bad(ruleT2, "Wait:registers("+t+")", c.P.Pos(fn.Pos()), "Wait has no branch for "+t+": the request is never registered and its acknowledgement finds no entry")
+			continue
+		}
+		n++
+		as := Assume{atomQoS0: false}
+		for _, o := range types {
+			as["type:"+o] = o == t
+		}
+		badRet := func(nd paths.Node) bool {
+			ret, ok := nd.Instr.(*ssa.Return)
+			if !ok || nd.F == nil || nd.F.Parent != nil || len(ret.Results) == 0 {
+				return false
+			}
+			res := ir.ReturnOperand(ret, len(ret.Results)-1)
+			if k, ok := res.(*ssa.Const); ok && k.IsNil() {
+				return false
+			}
+			if src := errCallSource(res); src != nil && src.Common().IsInvoke() && src.Common().Method.Name() == "Encode" {
+				return false
+			}
+			return true
+		}
+		if p := reach(g, entry, nil, badRet, as); p != nil {
+			c.R.Bad(ruleT2, "Wait:registers("+t+")", c.P.InstrPos(p[len(p)-1].Instr), "Wait can refuse a "+t+" that needs an acknowledgement (an error that is not a failing re-encode): a handler that ignores the result has told the sender the message arrived and never hands it on, a handler that honours it leaves a retransmission unanswered", c.witness(g, p)...)
+		} else {
+			c.R.Ok(ruleT2, "Wait:registers("+t+")", c.P.Pos(fn.Pos()), "for a "+t+" that needs an acknowledgement Wait returns nil or the error of re-encoding")
+		}
+	}
+	c.R.Count("request types registered by Wait", n)
 }
